@@ -55,7 +55,10 @@ C14)
   export VERIF_FREE_BIN="$W/free"
   ;;
 C15)
-  build "$W/bin" ./cmd/$LC || exit 3
+  instr $REPO/machine/prims.go=yield
+  build "$W/bin" ./cmd/$LC -overlay "$W/ov.json" || exit 3
+  build "$W/free" ./cmd/$LC -race -tags free || exit 3
+  export VERIF_FREE_BIN="$W/free"
   ;;
 C16)
   PRIM=$(go list -m -f '{{.Dir}}' github.com/goose-lang/primitive 2>/dev/null)
